@@ -358,7 +358,11 @@ func (i *interpreter) doSelect(fr *frame, instr *ssa.Select) value {
 	for {
 		r := readyIdx()
 		if len(r) > 0 {
-			chosen = r[i.choose(len(r))]
+			if i.cfg.SelectFork {
+				chosen = r[i.choose(len(r))]
+			} else {
+				chosen = r[0]
+			}
 			break
 		}
 		if !instr.Blocking {
